@@ -1574,24 +1574,21 @@ class Key(object):
 
         :return str: Base58 or Bech32 encoded address
         """
-        if (self.compressed and compressed is None) or compressed:
-            data = self.public_byte
-            self.compressed = True
-        else:
-            data = self.public_uncompressed_byte
-            self.compressed = False
+        # The requested form decides which public key is hashed; the key object itself keeps the form it was created with
+        if compressed is None:
+            compressed = self.compressed
+        data = self.public_compressed_byte if compressed else self.public_uncompressed_byte
         if encoding is None:
             if self._address_obj:
                 encoding = self._address_obj.encoding
             else:
                 encoding = 'base58'
-        if not self.compressed and encoding == 'bech32':
+        if not compressed and encoding == 'bech32':
             raise BKeyError("Uncompressed keys are non-standard for segwit/bech32 encoded addresses")
         if self._address_obj and script_type is None:
             script_type = self._address_obj.script_type
-        if not (self._address_obj and self._address_obj.prefix == prefix and self._address_obj.encoding == encoding):
-            self._address_obj = Address(data, prefix=prefix, network=self.network, script_type=script_type,
-                                        encoding=encoding, compressed=compressed)
+        self._address_obj = Address(data, prefix=prefix, network=self.network, script_type=script_type,
+                                    encoding=encoding, compressed=compressed)
         return self._address_obj.address
 
     def address_uncompressed(self, prefix=None, script_type=None, encoding=None):
